@@ -188,6 +188,9 @@ structure SnapWorld where
   loaded : List Nat := []        -- peers whose next obs must equal (one of) the saved state(s)
   /-- a racing save is in progress on this store key: the states seen so far -/
   racing : Option (Nat × List SnapState) := none
+  /-- store key ↦ what the replicator still had to fetch when the snapshot was saved: the instance
+  that loads the snapshot resumes it, so these entries and their ancestors may be listed too -/
+  queued : List (Nat × List Nat) := []
 deriving Inhabited
 
 def snapStateOf (w : World) (p : Nat) : SnapState :=
@@ -211,7 +214,10 @@ def onSnapSaved (w : World) (sw : SnapWorld) (toks : List String) : World × Sna
     | none => [snapStateOf w p]
   let sw := { sw with racing := none }
   match toks.getD 2 "" with
-  | "ok" => (w, { sw with saved := (w.key p, cands) :: sw.saved.filter (·.1 != w.key p) })
+  | "ok" =>
+    let saved' := (w.key p, cands) :: sw.saved.filter (·.1 != w.key p)
+    let queued' := (w.key p, namesToNums (arg toks "queue")) :: sw.queued.filter (fun (x : Nat × List Nat) => x.1 != w.key p)
+    (w, { sw with saved := saved', queued := queued' })
   | "err" => (w, sw)
   | _ => (w.fail "C13" "save" s!"peer {p}: SaveSnapshot panicked", sw)
 
@@ -219,7 +225,7 @@ def onSnapLoaded (w : World) (sw : SnapWorld) (toks : List String) : World × Sn
   let p := peerNum (toks.getD 1 "")
   let res := toks.getD 2 ""
   let old := w.store p
-  let w := { w with lastObs := w.lastObs.filter (·.1 != w.key p) }
+  let w := { w with lastObs := w.lastObs.filter (·.1 != w.key p), revBlind := w.revBlind.filter (· != w.key p) }
   match sw.saved.find? (·.1 == w.key p) with
   | none =>
     -- no snapshot was ever saved: loading reports "not found"
@@ -230,6 +236,7 @@ def onSnapLoaded (w : World) (sw : SnapWorld) (toks : List String) : World × Sn
     let w := { w.setStore p (snapStore w old vals) with resync := w.key p :: w.resync }
     let w := if res != "ok" then w.fail "C13" "load" s!"peer {p}: a snapshot was saved successfully but loading it reports {res}" else w
     let w := if arg toks "quiesce" != "true" then w.fail "C13" "load" s!"peer {p}: not quiescent after loading the snapshot" else w
+    let w := { w with revBlind := w.revBlind.filter (· != w.key p), repls := w.repls.filter (fun (x : Nat × Repl.St) => x.1 != w.key p) }
     (w, { sw with loaded := w.key p :: sw.loaded })
 
 /-- before the observation that follows a snapshot load is compared with the model: when the snapshot
@@ -241,7 +248,15 @@ def adoptSnapCandidate (w : World) (sw : SnapWorld) (toks : List String) : World
   match sw.saved.find? (·.1 == w.key p) with
   | some (_, cands) =>
     let iv := namesToNums (arg toks "values")
-    if cands.length > 1 then
+    let q := match sw.queued.find? (fun (x : Nat × List Nat) => x.1 == w.key p) with | some x => x.2 | none => []
+    if !q.isEmpty then
+      -- the resumed queue may have brought more entries: the model continues from the listing
+      let s := snapStore w (w.store p) iv
+      let L : Log := s.log
+      let L' : Log := { L with heads := w.entriesOf (namesToNums (arg toks "heads")) }
+      -- (which of the two joins came last decides the cached remote heads)
+      w.setStore p { s with log := L', remoteHeads := cacheField (arg toks "remote") }
+    else if cands.length > 1 then
       match cands.find? (fun c => c.vals == iv) with
       | some c => w.setStore p (snapStore w (w.store p) c.vals)
       | none => w
@@ -260,7 +275,11 @@ def checkSnapObs (w : World) (sw : SnapWorld) (toks : List String) : World × Sn
     let ih := namesToNums (arg toks "heads")
     let idx := showKV (parseKVs (arg toks "idx"))
     let okFor (c : SnapState) : Bool := iv == c.vals && ih == c.heads && (w.dbKind == Kind.log || idx == c.idx)
-    let w := if cands.any okFor then w else
+    let q := match sw.queued.find? (fun (x : Nat × List Nat) => x.1 == w.key p) with | some x => x.2 | none => []
+    -- with a saved queue: a saved state is listed, and whatever else is listed was brought by the queue
+    let allowed := w.ancestry q
+    let okQ (c : SnapState) : Bool := c.vals.all (fun n => iv.contains n) && iv.all (fun n => c.vals.contains n || allowed.contains n)
+    let w := if cands.any okFor || (!q.isEmpty && cands.any okQ) then w else
       match cands with
       | [c] =>
         if iv != c.vals || ih != c.heads then
